@@ -510,4 +510,89 @@ Proof.
       unfold dd_endcall. rewrite <- andb_assoc, R, andb_false_r. reflexivity. }
     rewrite E. cbn [fst snd]. split; [constructor|exact HJ].
 Qed.
+
+Lemma J_set_skip s v d : J s d -> J (set_skip s v) d.
+Proof. unfold J, linked. ss. auto. Qed.
+Lemma J_set_hist s v d : J s d -> J (set_hist s v) d.
+Proof. unfold J, linked. ss. auto. Qed.
+
+(* one LZ4F_decompress call *)
+Lemma dd_decompress_ok s d src cap o dst :
+  wf s -> 0 <= cap -> J s d ->
+  Forall (op_ok (d_maxBuf (fst (fst (fst (dd_decompress bdec s d src cap o dst))))) dst (dst + cap))
+         (snd (dd_decompress bdec s d src cap o dst)) /\
+  (0 <= r_ret (snd (fst (fst (dd_decompress bdec s d src cap o dst)))) ->
+   J (fst (fst (fst (dd_decompress bdec s d src cap o dst)))) (snd (fst (dd_decompress bdec s d src cap o dst))) /\
+   wf (fst (fst (fst (dd_decompress bdec s d src cap o dst))))).
+Proof.
+  intros W Hc HJ.
+  pose proof (decompress_ok bdec s src cap o W Hc) as OK.
+  rewrite <- (dd_decompress_abstract bdec s d src cap o dst) in OK.
+  destruct OK as (OKf & _ & _ & _ & _ & OKw & _).
+  unfold dd_decompress in *.
+  set (s0 := set_skip s (d_skip s || o_skip o)) in *.
+  assert (W0 : wf s0) by (apply wf_set_skip; exact W).
+  assert (J0 : J s0 d) by (apply J_set_skip; exact HJ).
+  set (l0 := mkL s0 src 0 [] cap) in *.
+  assert (Hhi : dst + cap = dst + zlen (l_out l0) + l_cap l0) by (unfold l0; ss; rewrite zlen_nil; lia).
+  destruct (dd_run_ok o dst (dst + cap) (call_fuel src) l0 d [] W0 Hc J0 Hhi) as (ops1 & E1 & F1 & M1 & R1).
+  destruct (dd_run bdec (call_fuel src) o dst l0 d []) as [[[l f] d1] opsr]. cbn [fst snd] in *.
+  cbn [app] in E1. subst opsr.
+  destruct f as [h|v|].
+  - destruct R1 as (RJ & RW & RN).
+    destruct (dd_endcall_J (l_s l) d1 (o_stableDst o) dst (dst + cap) RJ RN) as [E1 E2].
+    destruct (dd_endcall (linked (l_s l)) (o_stableDst o) (d_stage (l_s l)) d1) as [d2 ops2]. cbn [fst snd] in *.
+    split; [apply Forall_app; split; assumption|]. intros _. split; assumption.
+  - cbn [fst snd] in *. split; [exact F1|]. intros Hv. split; [apply R1; exact Hv|].
+    destruct OKw as [OKw|OKw]; [lia|exact OKw].
+  - cbn [fst snd r_fuel] in *. discriminate OKf.
+Qed.
+
+Definition call_conform (c : ddcall) : Prop :=
+  0 <= dc_cap c /\
+  match dc_dict c with Some (dict, a) => a <> 0 \/ dict = [] | None => True end.
+
+Lemma early_stage s : (stage_num (d_stage s) <=? FD_dstage_init) = true -> bst (d_stage s) = false.
+Proof. destruct (d_stage s); intros H; try reflexivity; vm_compute in H; discriminate H. Qed.
+
+Theorem session_in_bounds : forall cs s d,
+  wf s -> J s d -> Forall call_conform cs ->
+  Forall (fun x => let '(s', c, ops) := x in
+                   Forall (op_ok (d_maxBuf s') (dc_dst c) (dc_dst c + dc_cap c)) ops)
+         (dd_session bdec s d cs).
+Proof.
+  induction cs as [|c cs IH]; intros s d W HJ HC; [constructor|].
+  apply Forall_cons_iff in HC. destruct HC as [[Hcap Hd] HC].
+  cbn [dd_session].
+  assert (G : forall s2 d2, wf s2 -> J s2 d2 ->
+     Forall (fun x => let '(s', c, ops) := x in Forall (op_ok (d_maxBuf s') (dc_dst c) (dc_dst c + dc_cap c)) ops)
+       (let '(s', r, d', ops) := dd_decompress bdec s2 d2 (dc_src c) (dc_cap c) (dc_o c) (dc_dst c) in
+        (s', c, ops) :: (if r_ret r <? 0 then [] else dd_session bdec s' d' cs))).
+  { intros s2 d2 W2 J2.
+    pose proof (dd_decompress_ok s2 d2 (dc_src c) (dc_cap c) (dc_o c) (dc_dst c) W2 Hcap J2) as [F R].
+    destruct (dd_decompress bdec s2 d2 (dc_src c) (dc_cap c) (dc_o c) (dc_dst c)) as [[[s' r] d'] ops]. cbn [fst snd] in *.
+    constructor; [exact F|].
+    destruct (r_ret r <? 0) eqn:ER; [constructor|]. apply Z.ltb_ge in ER. destruct (R ER) as [R1 R2]. apply IH; assumption. }
+  destruct (dc_dict c) as [[dict a]|].
+  - unfold dd_decompress_usingDict.
+    destruct (stage_num (d_stage s) <=? FD_dstage_init) eqn:EF.
+    + apply G; [apply wf_set_hist; exact W|].
+      pose proof (early_stage s EF) as Hb. unfold J. cbn [d_stage set_hist]. ss. rewrite Hb.
+      unfold pre_frame. destruct d as [dp ds to tsz tst]. cbn [dd_set_dict dd_dict dd_dictSize].
+      split; [apply zlen_nonneg|]. destruct (a =? 0) eqn:EA; [|exact Logic.I].
+      apply Z.eqb_eq in EA. destruct Hd as [Hd|Hd]; [contradiction|]. subst dict. reflexivity.
+    + apply G; assumption.
+  - apply G; assumption.
+Qed.
+
+Lemma J_init : J dctx_init dd_init.
+Proof. unfold J. change (bst (d_stage dctx_init)) with false. cbv iota. unfold pre_frame, dd_init; cbn [dd_dict dd_dictSize]. split; [lia|reflexivity]. Qed.
 End Sess.
+
+(* every memory operation of every call of an API-conforming session on a fresh context is in bounds *)
+Theorem tmpOut_in_bounds : forall bdec cs,
+  Forall call_conform cs ->
+  Forall (fun x => let '(s', c, ops) := x in
+                   Forall (op_ok (d_maxBuf s') (dc_dst c) (dc_dst c + dc_cap c)) ops)
+         (dd_session bdec dctx_init dd_init cs).
+Proof. intros bdec cs H. apply session_in_bounds; [apply wf_init|apply J_init|exact H]. Qed.
